@@ -387,9 +387,21 @@ impl RndGen {
                 }));
             }
 
-            // validity: volumes
+            // validity: volumes. In large-volume histories the exact rule of the property is applied to the state *after*
+            // the operation (resting volume per side and the traded counter stay below 2^32) by running the operation on a
+            // copy of the generator's model: an aggressor may then be larger than the head-room of its own side as long
+            // as enough of it trades. Ordinary histories keep the cheaper, conservative pre-state rule below.
             let mut ok = true;
-            for op in &new_ops {
+            let exact = large_hist && !new_ops.is_empty();
+            if exact {
+                let mut probe = m.clone();
+                for op in &new_ops {
+                    model_apply(&mut probe, op);
+                }
+                ok = probe.side_vol(true) < PMAX as u64 && probe.side_vol(false) < PMAX as u64 && probe.traded < PMAX as u64;
+            }
+            let conservative: &[Op] = if exact { &[] } else { &new_ops };
+            for op in conservative {
                 match op {
                     Op::CreatePlace { bid, vol, .. } | Op::Create { bid, vol, .. } => {
                         if (*vol as u64) + 1 > head(&m, *bid) || m.traded + *vol as u64 >= PMAX as u64 {
